@@ -23,6 +23,7 @@ EXPLANATION = (
     "paths are enumerated: only 'no identity item' and 'no handler bound' accept without a "
     "positive verdict. Handlers can only run for established associations (who-may-call). Not "
     "decided: string comparison on exotic padding beyond strip()."
+    ' Second session: item-not-dropped - no except clause in the PDU codec swallows a failed conversion of a received item (a user-identity item that cannot be converted must fail the PDU, not vanish before the identity check).'
 )
 
 
